@@ -45,7 +45,7 @@ def main() -> None:
     import tempfile
 
     def rnd(n):
-        return "regressions" if n.startswith("REGR-") else "round 4" if "-r4" in n else "round 3" if "-r3" in n else "round 2" if "-r2" in n else "round 1"
+        return "regressions" if n.startswith("REGR-") else "round 6" if "-r6" in n else "round 5" if "-r5" in n else "round 4" if "-r4" in n else "round 3" if "-r3" in n else "round 2" if "-r2" in n else "round 1"
 
     cnt = {}
     for n in names:
